@@ -678,6 +678,25 @@ impl<'a> PGen<'a> {
                 let n = self.rng.pick(&self.vars).0.clone();
                 vec![(Stmt::Output(n, None), "output-name")]
             }
+            9 | 10 => {
+                // a name bound by an assignment nested inside a statement that is not itself an
+                // assignment (an element, an argument, a branch, a field, an operand)
+                let n = self.fresh();
+                let t = *self.rng.pick(&[T::Num, T::Str, T::LNum, T::LNum, T::LStr, T::Rec, T::Rec, T::Fun, T::LX]);
+                let e = self.expr(t, d);
+                self.vars.push((n.clone(), t));
+                let a = assign(&n, e);
+                let st = match self.rng.below(7) {
+                    0 => E::List(vec![a, num(0)]),
+                    1 => call(id("typeof"), vec![a]),
+                    2 => cond(E::Bool(true), a, num(0)),
+                    3 => E::Rec(vec![RK::Static("k".into(), a)]),
+                    4 => bin("==", a, num(0)),
+                    5 => E::List(vec![E::List(vec![num(1), a])]),
+                    _ => call(lam(&["x"], num(1)), vec![a]),
+                };
+                vec![(Stmt::Expr(st), "bind-nested")]
+            }
             _ => {
                 let n = self.fresh();
                 let t = *self.rng.pick(&[T::Num, T::Num, T::Str, T::Bool, T::LNum, T::LNum, T::LStr, T::Rec, T::Rec, T::Fun, T::Fun, T::LX, T::LX]);
